@@ -305,6 +305,15 @@ def nontrivial(case, obs):  # noqa: F811
     return _nt_u(case, obs)
 
 
+LEVEL_TEXT += (' CLOUD/RAIN (Model/CloudRain.v, Proofs/CloudRainProofs.v): C14_cloudrain_every_prefix - for EVERY well-formed file and EVERY byte prefix the reader '
+               'raises, or the prefix is the header plus a whole number of steps of one of the two layouts, and when the layout picked is the file\'s own exactly the '
+               'first k steps are presented; C14_cloudrain_whole_step_prefix; the other alternative is real and inherent (C14_cloudrain_prefix_other_layout_refuted, '
+               'known finding C14-cloud-rain-prefix-other-layout, region 20: a 5-field file cut after header + one 3-field step IS a valid 3-field file). Cuts evaluated '
+               'in Coq (kind cr-cut: header, whole steps of both layouts +-1/+-4, random).')
+RULE += (' CLOUD/RAIN: per generated file (3- and 5-field layouts) up to 30 cuts evaluated in Coq: header region, every whole-step boundary of both layouts, +-1/+-4 '
+         'bytes, random offsets; region 20 = data size a whole number of steps of the other layout only.')
+
+
 # ----------------------------------------------------------------------------- GEOS-Chem bpch byte prefixes
 # C14 names bpch in its quantifier: cuts of reference-encoded bpch files through bpch1 (harness/bpchprefix.py reuses the C18
 # machinery; Coq side Corr/BpchPrefix.v, theorem Proofs/BpchPrefixThm.v prefix_open). Corr/C14.v wraps the CAMx terms in `Old`.
